@@ -1088,6 +1088,12 @@ impl CollectionV3 {
     pub fn load_contig_batch(&mut self, archive: &mut Archive, id_batch: usize) -> Result<()> {
         // Use cumulative samples_loaded counter, NOT id_batch * batch_size
         // C++ AGC creates batches of ~50 samples, but batch_size defaults to 1M which is wrong
+        // Batches are (re)loaded in order starting from batch 0; restarting at batch 0 restarts
+        // the cursor, so that loading the table again is idempotent instead of indexing past
+        // the sample table.
+        if id_batch == 0 {
+            self.samples_loaded = 0;
+        }
         let i_sample = self.samples_loaded;
 
         // Load contig names
